@@ -1511,3 +1511,13 @@ B('c19-format-from-token-text', 'C19', 'R19.f', IOPARSER,
   "        format_str = self.current_str", "        format_str = str(self.current_token)")
 N('c19-format-through-parser-call', 'C19', IOPARSER,
   "        format_str = self.current_str", "        format_str = self.parser._current_str()")
+B('c16-at-rvalue-lookup-any-token', 'C16', 'R16.g', PARSE,
+  "        if self._current_token.is_a(TokenTypes.NAME):\n            return not self._context.has_routine(str(self.current_token))\n        return False",
+  "        return self._context.has_symbol_typed(\n            str(token), SymbolType.MACRO, SymbolType.VAR)")
+B('c16-macro-value-by-class-name', 'C16', 'R16.g', PARSE,
+  "            inner_macro = self._context.get_macro(self._current_token.content)", "            inner_macro = self._context.get_macro(str(self._current_token))")
+B('c16-call-by-class-name', 'C06', 'R16.g', PARSE,
+  "        routine = self._context.get_routine(self._current_token.content)", "        routine = self._context.get_routine(str(self._current_token))")
+N('c16-constant-lookup-name-test-negated', 'C16', PARSE,
+  "        if not self._current_token.is_a(TokenTypes.NAME):\n            return None\n        macro = self._context.get_macro(str(self._current_token))\n        return None if macro.undefined else macro.value",
+  "        if self._current_token.token_type is TokenTypes.NAME:\n            macro = self._context.get_macro(str(self._current_token))\n            return None if macro.undefined else macro.value\n        return None")
